@@ -1,9 +1,11 @@
 import Driver.Util
-import AslModel.Model.MacroLabels
+import AslModel.Model.MacroLabelsFlat
 /-! Driver mode `c11lab` for C11 (labels of enclosing expansions seen from nested bodies).
 
 request  `item*`   item: `L <k>` | `R <k>` | `C <wh 0|1> <glob 0|1> <n> item* E`
-answer   `ok model=<bytes|UNDEF> model2=<the same with a second pass in any case> spec=<bytes|UNDEF> mom=<MomLocHandle at the end> left=<open handles at the end> hand=<ev,ev,...>`
+answer   `ok model=<bytes|UNDEF> model2=<the same with a second pass in any case> spec=<bytes|UNDEF> mom=<MomLocHandle at the end> left=<open handles at the end> ndd=<0|1> neb=<0|1> p2=<0|1: pass 1 left a reference undefined, a second pass is made> hand=<ev,ev,...>`
+   ndd / neb: the hypotheses `NoDoubleDef` / `NoEarlyBind` of `C11_labels_refines` (Props/C11_Labels.lean) evaluated on the program: with
+   ndd=1 neb=1 the theorem says model = spec, with ndd=1 it says model2 = spec - the harness reports a contradiction as a proof problem
    bytes: hex, one byte per statement (values mod 256);  ev: `D<k>.<inst|g>` / `U<k>.<inst|g>` - the hand expansion of the SPEC -/
 namespace Driver.C11Labels
 open AslModel.MacroLabelsSpec
@@ -31,7 +33,10 @@ def handle (line : String) : String :=
     let m2 := AslModel.MacroLabels.assemble2 prog
     let s := expand prog
     let hand := if s.isEmpty then "-" else ",".intercalate (s.map evStr)
-    s!"ok model={render m.out.reverse} model2={render m2.out.reverse} spec={render (image s)} mom={m.mom} left={m.conts.length} hand={hand}"
+    let ndd := if decide (AslModel.MacroLabels.NoDoubleDef prog) then "1" else "0"
+    let p2 := if (AslModel.MacroLabels.pass {} prog).out.any Option.isNone then "1" else "0"
+    let neb := if decide (AslModel.MacroLabels.NoEarlyBind prog) then "1" else "0"
+    s!"ok model={render m.out.reverse} model2={render m2.out.reverse} spec={render (image s)} mom={m.mom} left={m.conts.length} ndd={ndd} neb={neb} p2={p2} hand={hand}"
   | _ => "bad-request"
 
 end Driver.C11Labels
